@@ -304,4 +304,7 @@ def str_method(lib, I, s, name, a, k, node):
         return LibObj("pybytes_sym", term=L.utf8(sterm(I, s)), src=s)
     if name == "lower" and isinstance(s, str):
         return s.lower()
+    if name in ("startswith", "endswith") and len(a) == 1 and (isinstance(a[0], str) or is_sym(a[0], "str")):
+        f = z3.PrefixOf if name == "startswith" else z3.SuffixOf
+        return I.mk(f(sterm(I, a[0]), sterm(I, s)), "bool")
     return MISSING
